@@ -4,6 +4,7 @@
 #[macro_use]
 extern crate rdp;
 
+mod alloc_count;
 mod common;
 mod io;
 mod shape;
